@@ -5,6 +5,7 @@ import inspect
 import json
 import os
 import sys
+sys.set_int_max_str_digits(0)
 import time
 import traceback
 from fractions import Fraction
@@ -51,6 +52,7 @@ class Unit:
     budget_s = 600
     max_paths = 5000
     witnesses = 2            # witness validations per unit (paths sampled from the start)
+    max_violations = 3       # stop exploring a unit after this many reproduced violations
     query_timeout_ms = 60000
     fork_cap = 64
     small = ()               # extra constraints (callable ctx -> list) to get small witness models
@@ -126,10 +128,43 @@ class Unit:
         if r == "unsat":
             return
         if r == "unknown":
+            # bug hunting when the solver gives up: solver models of the path condition, filtered by exact
+            # evaluation of the negated property, replayed on the real code.  Never turns unknown into "holds".
+            import random
+            rng = random.Random(hash((self.name, label)) & 0xFFFF)
+            bad_e = _as_expr(bad)
+            for _ in range(4):
+                values = ctx.diverse_model(rng)
+                if values is None:
+                    break
+                try:
+                    env = {k: (Fraction(v) if not isinstance(v, bool) else v) for k, v in values.items()}
+                    hit = bool(K.evalz(bad_e, env, {}))
+                except (KeyError, ZeroDivisionError, Unsupported):
+                    break
+                if hit:
+                    status, detail = self.replay(label, values)
+                    if status in ("reproduced", "reproduced_other"):
+                        state["violations"].append({
+                            "unit": self.name, "label": label, "values": jsonable(values),
+                            "detail": detail + " (candidate from a path-condition model after solver 'unknown')",
+                            "signature": self.signature(label, values, detail), "decisions": [t[0] for t in ctx.trace]})
+                        if len(state["violations"]) >= self.max_violations:
+                            raise StopUnit()
+                        return
             state["unknown"].append(label)
             return
         tries = 0
         bad_e = _as_expr(bad)
+        # prefer a counterexample that is robust under float replay: amplified disequalities, moderate magnitudes
+        try:
+            nice = [z3.And(c <= 64, c >= -64) for c in ctx.inputs.values() if c.sort() != z3.BoolSort()]
+            r3, m3 = ctx._check(amplify(bad_e), *nice)
+            if r3 == "sat":
+                ctx.checks.append((label, "sat", 0.0, K.model_values(m3, ctx.inputs)))
+                bad_e = z3.And(amplify(bad_e), *nice)
+        except z3.Z3Exception:
+            pass
         while True:
             values = ctx.checks[-1][3]
             tries += 1
@@ -139,6 +174,8 @@ class Unit:
                 state["violations"].append({
                     "unit": self.name, "label": lab, "values": jsonable(values), "detail": detail,
                     "signature": self.signature(lab, values, detail), "decisions": [t[0] for t in ctx.trace]})
+                if len(state["violations"]) >= self.max_violations:
+                    raise StopUnit()
                 return
             if tries >= MAX_REPLAY_MODELS:
                 so = state.get("sym_out")
@@ -190,6 +227,45 @@ class Unit:
                                             "decisions": [t[0] for t in ctx.trace]})
         else:
             state["witness_ok"] += 1
+
+
+def amplify(e, q=Fraction(1, 4)):
+    """Strengthen every real disequality atom  a != b  in e to |a-b| >= q (used only to pick a counterexample
+    model that survives floating-point replay; the verdict itself comes from the unamplified query)."""
+    memo = {}
+
+    def go(t, pos):
+        key = (t.get_id(), pos)
+        if key in memo:
+            return memo[key]
+        r = go1(t, pos)
+        memo[key] = r
+        return r
+
+    def go1(t, pos):
+        if not z3.is_bool(t):
+            return t
+        k = t.decl().kind()
+        ch = t.children()
+        if k == z3.Z3_OP_NOT:
+            return z3.Not(go(ch[0], not pos))
+        if k in (z3.Z3_OP_AND, z3.Z3_OP_OR):
+            f = z3.And if k == z3.Z3_OP_AND else z3.Or
+            return f([go(c, pos) for c in ch])
+        if k == z3.Z3_OP_ITE:
+            return z3.If(ch[0], go(ch[1], pos), go(ch[2], pos))
+        if k == z3.Z3_OP_EQ and not pos and ch[0].sort() == z3.RealSort():
+            d = ch[0] - ch[1]
+            return z3.Not(z3.Or(d >= K.realval(q), -d >= K.realval(q)))      # under a negation: Not(Not(big)) = big
+        if k == z3.Z3_OP_DISTINCT and pos and len(ch) == 2 and ch[0].sort() == z3.RealSort():
+            d = ch[0] - ch[1]
+            return z3.Or(d >= K.realval(q), -d >= K.realval(q))
+        return t
+    return go(e, True)
+
+
+class StopUnit(BaseException):
+    pass
 
 
 def _val(v, c):
@@ -259,7 +335,7 @@ def run_unit(unit):
         def fn(ctx):
             ctx.fork_cap = unit.fork_cap
             return unit.path(ctx, state)
-        done, stats = explore(fn, max_paths=unit.max_paths, deadline=t0 + unit.budget_s)
+        done, stats = explore(fn, max_paths=unit.max_paths, deadline=t0 + unit.budget_s, stop=StopUnit)
         for ctx in done:
             if ctx.reached:
                 reached += 1
@@ -318,12 +394,21 @@ def run_unit(unit):
     return res
 
 
+def prepare_units(mod, tier):
+    us = mod.units(tier)
+    for u in us:
+        if tier == "quick":
+            u.budget_s = min(u.budget_s, 240)
+            u.query_timeout_ms = min(u.query_timeout_ms, 30000)
+    return us
+
+
 def worker(task):
     pid, tier, uname = task
     sys.setrecursionlimit(20000)
     try:
         mod = importlib.import_module(f"harness.{pid}")
-        units = {u.name: u for u in mod.units(tier)}
+        units = {u.name: u for u in prepare_units(mod, tier)}
         return run_unit(units[uname])
     except BaseException as e:   # never lose a task silently
         return {"unit": uname, "verdict": "inconclusive", "reason": f"worker crashed: {type(e).__name__}: {e}",
